@@ -390,7 +390,10 @@ func runPair(c *hx.Ctx, cfg gc.Cfg, p pairSpec) {
 		gAll = append(gAll, string(gs))
 		pAll = append(pAll, string(ps))
 	}
-	c.Impl(p.id, "res=ok", fmt.Sprintf("n=%d", len(groups)), "g="+strings.Join(gAll, ","), "p="+strings.Join(pAll, ","))
+	// r= : the model driver classifies every state a second time through the RECORD-level reader of the C09
+	// theorems (toDisk + flatReader, Proofs/GptRefine.lean); it must agree with the real gpt.Read as well;
+	// q= : the same for partition.Read through the record-level partRead (mbrViewFlat); no from-backup flag there
+	c.Impl(p.id, "res=ok", fmt.Sprintf("n=%d", len(groups)), "g="+strings.Join(gAll, ","), "p="+strings.Join(pAll, ","), "r="+strings.Join(gAll, ","), "q="+strings.ToUpper(strings.Join(pAll, ",")))
 	c.StatN("crash-states", states)
 	c.StatN("hyp.nocrccollision.checked", collChecked)
 	if collBad > 0 {
